@@ -27,6 +27,11 @@ CHECKS = {
         text="TLA+ model of the wire reader (offsets as framed sums, three-state save protocol, byte-granular and block-boundary sources, pop between messages, resume of a new reader with discard of Offset - sourceOffset) model-checked exhaustively for short streams over every block-boundary placement; real write/read round trips over message-size classes x {none, gzip -2..9, brotli 0..11} with WantSave schedules, PopCheckpoint at every boundary and every popped checkpoint gob-round-tripped into a new reader; TLC evaluates the property on every recorded session and steps the model along it (source = logged environment).",
         note="payload equality via SHA-256 in the harness; the decompressors (savior gzip/brotli sources) are environment whose checkpoint offsets are bound from the log; ZSTD has no registered compressor.",
         technique="TLA+ model checking (TLC) + trace validation of real reader sessions against the TLA+ wire model"),
+    "C12": dict(
+        level="model_checking", ref="DESIGN.md §4 C12",
+        text="Three TLA+ modules: the abstract automaton of bsdiff control series (absolute old offset, add = byte-wise sum mod 256, copy, seek, single final end-of-series, resume from a saved offset), the chunked LRU read cache (model-checked; one witness walk per transition replayed on the real lrufile at model scale comparing bytes, EOF, offsets and hit/miss counters) and the dispatcher/worker/collector pipeline of the scanner (order, no wedge, completion under fairness). The real bsdiff.Do runs on every small (old,new) x partitions and on random large pairs; TLC accepts or rejects each real series with the automaton (verbatim at small scale, digest facts at large scale) and compares the real applier's offset trajectory, output and resumptions.",
+        note="SHA-256 digests stand for byte equality at large scale; suffix sorter and LRU library enter only through real executions; a crash of the real differ kills the driver and is reported from a marker file.",
+        technique="TLA+ model checking (TLC) + model walks replayed on the real cache + trace validation of real control series against the TLA+ automaton"),
 }
 
 NOT_YET = "check not built yet in this round (planned: DESIGN.md §4); not a claim that the technique cannot apply"
